@@ -17,7 +17,12 @@ func TestReservedSetsOnlyGrow(t *testing.T) {
 	r := evid.R()
 	ctx := context.Background()
 	r.Check(t, r.Scale(250, 8000), 3, func(t *rapid.T) {
-		v := protogen.GenRangeCase(t, false)
+		var v *protogen.ValueCase
+		if rapid.IntRange(0, 3).Draw(t, "names") == 0 {
+			v = protogen.GenReservedNamesCase(t, false)
+		} else {
+			v = protogen.GenRangeCase(t, false)
+		}
 		if v.Breaking {
 			t.Fatalf("harness: growing steps lost a number: %s", v.Desc)
 		}
